@@ -16,6 +16,11 @@ CHECKS = {
          "Seeded hostile histories of the real application: a simulated remote chain emits events, one pigeon per validator votes (honest, late, or for an altered claim), stake moves, validators get jailed/unjailed, governance moves the oracle cursor down/up/to the same value and back. After every block the shadow oracle re-derives from the stored attestation records and staking powers: duplicate-free vote lists, distinct voters' power*100 > 66*total for every claim that took effect, strictly consecutive nonces, one claim per nonce per reset epoch, cursor advance == number of effects, and supply/receiver effects applied exactly once. Held = held on those histories.",
          "Stored powers after a block equal those the tally saw (module order); jailing via valset.Jail; compass hand-over resets only at bring-up.",
          "DESIGN.md §2 C02"),
+ "C08": ("exploration", "chain+world",
+         "twin executions of the same seeded history in separate processes under environment / restart / read-only-traffic / database variations with per-block digest comparison + 25-fold repeated evaluation of pure decisions on forked states",
+         "Each omnibus history is executed by 4-6 twin processes that differ only in what must not matter (every env variable the sources read - found by scanning at check time - set vs unset, TZ/GOMAXPROCS/GOGC/LANG, restarts at block boundaries, read-only traffic incl. CheckTx/Simulate between blocks, memdb vs goleveldb); per block the digests of raw txs, tx results (code, data, gas, events), block events and app hash are compared. In the base twin relayer selection, snapshot construction, attestation processing and the end-blockers are evaluated 25x on forks of the same state and write sets and return values compared. Held = no divergence on those executions.",
+         "Harness workload generator deterministic (checked: diverging inputs with equal digests => INCONCLUSIVE); one machine/architecture; tx log strings excluded.",
+         "DESIGN.md §2 C08"),
  "C09": ("exploration", "chain+world",
          "recover()/error oracle around FinalizeBlock of the real app under omnibus histories with hostile accepted values + Begin/EndBlock probing of every Paloma module on forked states at rare height classes",
          "Seeded omnibus histories of the real application in which every sender-controlled value (fee multiplicators, gas estimates, amounts, payload sizes, proofs of every malformed shape, nonces, versions, addresses, governance-set numbers and strings) comes from hostile generators and remains only if the chain accepted the transaction. Every FinalizeBlock is wrapped in recover()+error check; every 40 blocks each Paloma module's BeginBlock/EndBlock is additionally run on throw-away forks at the next heights = 0 mod 10/50/300/303 and at 10 000 / 15 150 / 30 300 / 303 000. Held = no abort on those executions.",
